@@ -34,7 +34,8 @@ RULE = (
 )
 ASSUMPTIONS = [
     "visor headers are followed directly by the next header; all file data of visor members lives behind the end-of-archive blocks",
-    "visor members with long names use GNU or PAX long-name records (a ustar prefix would overlap the visor offset field)",
+    "visor members with long names use GNU or PAX long-name records or a ustar prefix of at most 151 bytes (the visor offset field "
+    "starts where a longer prefix would continue; a prefix of exactly 151 bytes only with data offsets whose low byte is zero)",
 ]
 
 def _decoy() -> bytes:
@@ -70,10 +71,10 @@ def member(draw, idx):
     if longname in ("gnu", "pax"):
         name = "/".join(["d" * 30] * draw(st.integers(4, 8))) + "/" + name
     elif longname == "ustar-prefix":
-        pre = draw(st.sampled_from([120, 151, 152, 153, 154, 155]))
+        pre = draw(st.sampled_from([120, 150, 151, 152, 153, 154, 155]))
         name = ("p" * pre) + "/" + f"n{idx}"
-        if kind.startswith("visor"):
-            kind = "std-file"  # see ASSUMPTIONS
+        if kind.startswith("visor") and pre > 151:
+            kind = "std-file"  # see ASSUMPTIONS: the visor offset field starts where a prefix longer than 151 bytes would continue
     m = {"kind": kind, "name": name, "longname": longname, "mode": draw(st.sampled_from([0o644, 0o755, 0o600])), "mtime": draw(st.integers(0, 2**31 - 1))}
     if kind in ("visor-file", "std-file"):
         m["size"] = draw(st.one_of(st.integers(1, 600), st.sampled_from([511, 512, 513, 4096, 20000]), st.integers(1, 20000)))
@@ -99,11 +100,16 @@ def member(draw, idx):
 def archive_spec(draw, tier):
     n = draw(st.integers(0, 12))
     members = [draw(member(i)) for i in range(n)]
+    align = draw(st.sampled_from([4096, 4096, 512, 1, 7]))
+    for m in members:
+        # a 151-byte prefix leaves no terminator in front of the offset field: only unambiguous when the offset's low byte is zero
+        if m["kind"].startswith("visor") and m["longname"] == "ustar-prefix" and m["name"].startswith("p" * 151) and align not in (4096, 512):
+            m["kind"] = "std-file" if m["kind"] == "visor-file" else "std-dir" if m["kind"] == "visor-dir" else "std-empty"
     visor_files = [i for i, m in enumerate(members) if m["kind"] == "visor-file"]
     order = draw(st.permutations(visor_files)) if draw(st.booleans()) else (list(reversed(visor_files)) if draw(st.booleans()) else visor_files)
-    return {"members": members, "data_order": list(order), "align": draw(st.sampled_from([4096, 4096, 512, 1, 7])),
+    return {"members": members, "data_order": list(order), "align": align,
             "gap": draw(st.sampled_from([0, 0, 1, 5000, 70000])), "end_blocks": draw(st.sampled_from([2, 2, 3, 8])),
-            "trailing": draw(st.sampled_from([0, 0, 512, 10240, 100])), "gzip": draw(st.booleans()), "via": draw(st.sampled_from(["fileobj", "fileobj", "name"])),
+            "trailing": draw(st.sampled_from([0, 0, 512, 10240, 100])), "gzip": draw(st.booleans()), "via": draw(st.sampled_from(["fileobj", "fileobj", "name", "tempfile"])),
             # the data area far behind the headers: recorded offsets around and above 2^31 (uncompressed archives, sparse handle)
             "far": draw(st.sampled_from([0, 0, 0, 0, 0x7FFFF000, 0x80000000, 0xC0000000, 0xFFF00000])),
             # bytes in front of the archive inside the same file; the handle is handed over positioned at the archive's start
@@ -295,6 +301,16 @@ def check(spec) -> Outcome:
                     other.close()
             finally:
                 shutil.rmtree(d, ignore_errors=True)
+        if spec.get("via") == "tempfile" and not far and not prefix:
+            # an anonymous temporary file: a handle whose .name is an integer (a file descriptor), not a path
+            with tempfile.TemporaryFile() as tf:
+                tf.write(blob)
+                tf.seek(0)
+                t = vmtar.open(fileobj=tf)
+                try:
+                    return read_all(t)
+                finally:
+                    t.close()
         if prefix:
             fh = core_track(bytes((i * 31 + 7) & 0xFF for i in range(prefix)) + blob)
             fh.seek(prefix)
